@@ -1,7 +1,28 @@
 """Contracts of the two parsing functions (C02 exceptional postcondition; the accepted language itself is decided by
 the bounded stand-in, see DESIGN §4 C01/C02) and of the key extraction used by ConditionNodeBuilder (C18)."""
+import z3
+
 from pyvc.contracts import Raw, Str, contract
-from pyvc.values import Opaque
+from pyvc.values import Opaque, Sc, SV, mk_s
+
+
+def _parse_hook(real_name):
+    def hook(ex, st, bound):
+        """modular view: a Tree remembering its source text, or SyntaxError.  A CONSTANT argument is folded through the
+        real parser (complete for that one input)."""
+        arg = list(bound.values())[0]
+        const = z3.simplify(Sc.sv(arg.t)) if isinstance(arg, SV) else None
+        if const is not None and z3.is_string_value(const):
+            import importlib
+            mod, fn = real_name.split(":")
+            try:
+                getattr(importlib.import_module(mod), fn)(const.as_string())
+                return [(st, Opaque("inst:Tree", arg))]
+            except SyntaxError:
+                return [ex.raise_(st, "SyntaxError", SV(mk_s("not well-formed"), "str"))]
+        msg = SV(mk_s(ex.fresh("msg", z3.StringSort())), "str")
+        return [ex.raise_(st.fork(), "SyntaxError", msg), (st, Opaque("inst:Tree", arg))]
+    return hook
 
 
 def tree():
@@ -14,6 +35,7 @@ class ParseCondition:
     params = dict(condition_expression=Str())
     raises = {"SyntaxError": None}
     returns = tree()
+    hook = _parse_hook("ahbicht.expressions.condition_expression_parser:parse_condition_expression_to_tree")
 
 
 @contract("ahbicht.expressions.ahb_expression_parser:parse_ahb_expression_to_single_requirement_indicator_expressions",
@@ -22,3 +44,5 @@ class ParseAhb:
     params = dict(ahb_expression=Str())
     raises = {"SyntaxError": None}
     returns = tree()
+    hook = _parse_hook(
+        "ahbicht.expressions.ahb_expression_parser:parse_ahb_expression_to_single_requirement_indicator_expressions")
